@@ -8,6 +8,7 @@ Require Export MS.Corr.AggCols.
 Local Open Scope Z_scope.
 
 Record case := {
+  k_off : Z;                                (* UTC offset (seconds) of the system timezone the candlers ran in *)
   k_mult : Z; k_suffix : string;            (* the timeframe literal "<mult><suffix>" *)
   k_sum_idx : list nat; k_avg_idx : list nat;
   k_inputs : list kinput;                   (* one per Accum call *)
@@ -16,7 +17,7 @@ Record case := {
 }.
 
 Definition model_run (k : case) : Res cmap :=
-  run_accum (cd_of (k_mult k) (k_suffix k)) [] (map mk_input (k_inputs k)).
+  run_accum (cd_of_zone (k_off k * NS) (k_mult k) (k_suffix k)) [] (map mk_input (k_inputs k)).
 
 Definition agrees (k : case) : bool :=
   match model_run k with
@@ -69,7 +70,7 @@ Fixpoint incrb (l : list Z) : bool :=
   end.
 
 Definition model_prop (k : case) : bool :=
-  let cd := cd_of (k_mult k) (k_suffix k) in
+  let cd := cd_of_zone (k_off k * NS) (k_mult k) (k_suffix k) in
   match case_rows k, model_run k with
   | Some rows, Ok m =>
       let out := sort_by_key m in
